@@ -52,6 +52,13 @@ DET = {
  'C12-pocca-allocate-before-size': ('C12', ['C12 quick: elem/V1|N2/prop-ne/elem_assign BOUNDS store past the too-small new block']),
  'C16-erase-through-temporary': ('C16', ['C16 quick: seq/N2/*/erase... assert x90 (erase allocates). MISSED while the KF-erase-overlap exclusion was applied to every property (DESIGN 10)']),
  'C17-pocca-branch-dangling-on-throw': ('C17', ['C17 quick: exc/*/prop-ne/copy_assign LEDGER double free / BOUNDS after the allocation in the propagating branch throws']),
+ 'C04-fixed-trailing-alignment-bracket': ('C04', ['C04 quick: seq/M2/*/erase... asserts x98 (element overlaps / leaves [data_begin, data_end)) after erase on list M2 = size_t, VaryingSize<u32>, AlignAs<u32,8>, FixedSize<u64>; MISSED by C04 before M2 joined its pool (C03 caught it through the new vtail layout shapes as misalignment)']),
+ 'C10-reserve-size-not-stride': ('C10', ['C10 quick: layout/V1|V2/n2/reserved BOUNDS store past the block of a reserved vector filled to its new limits; seq/*/reserve+probe...']),
+ 'C13-equal-bytecount-precheck': ('C13', ['C13 quick: cmp/FL4|G3/part2 asserts 210.. (vectors with identical elements, one reached through emplace_back + pop_back / erase of the last element); the history variant and the lists FL4/G3 were added for this - and exposed KF-cmp-history on the unchanged tree']),
+ 'C14-vector-lex-equality-memcmp-trait': ('C14', ['C14 quick: cmp/S16/part4/d0 asserts 420/421 (vector < vs lexicographical_compare under the element-level <, full-width u16 values); the full-width obligation was added for this (domain {0,1,2} cannot distinguish byte order from numeric order)']),
+ 'C15-copy-n-double-traversal': ('C15', ['C15 quick: emplace/*/f11|f12/fixed assert 131 (the source iterator is advanced more often than the parameter holds)']),
+ 'C18-erase-last-wrong-end-marker': ('C18', ['C18 quick: empty/V* way "emptied by repeated erase(begin())": assert x13 (data_begin() == data_end()); seq/V*/erase assert x09']),
+ 'C19-end-writes-spare-slot': ('C19', ['C19 quick: const/V*|M1|N2/vec RACE-WRITE store into the frozen address table during end()']),
  'C19-elem-copy-assign-moves': ('C19', ['C19 quick: const/N2/elem RACE-WRITE store into the frozen shared element during copy assignment from it - the shared-const-element part of the harness was added for this']),
 }
 for d, (prop, det) in DET.items():
